@@ -191,8 +191,19 @@ def evaluate(c, rec):
                     # the first certificate occurs once more at the end (keyring dumps and merged exports contain such repeats):
                     # every certificate still gets its own components and nobody else's
                     blobs.append(blobs[0])
+                if c['layout'] & 8:
+                    # marker packets ("MUST be ignored when received", RFC 4880 5.8) before and between the certificates
+                    blobs = [x for b in blobs for x in (wire.build_packet(10, b'PGP'), b)]
+                    rec.note('concatenation-with-markers')
                 data = b''.join(blobs)
-                first, rest = pgpy.PGPKey.from_blob(armor.write_block('PRIVATE KEY BLOCK' if c['secret'] else 'PUBLIC KEY BLOCK', data) if c['armored'] else data)
+                magic = 'PRIVATE KEY BLOCK' if c['secret'] else 'PUBLIC KEY BLOCK'
+                if c['armored'] and c['layout'] & 4:
+                    # one armored block per certificate, the blocks concatenated as text (what `cat a.asc b.asc` gives)
+                    data = ''.join(armor.write_block(magic, b) for b in blobs)
+                    rec.note('concatenation-of-armored-blocks')
+                elif c['armored']:
+                    data = armor.write_block(magic, data)
+                first, rest = pgpy.PGPKey.from_blob(data)
                 keys = [first] + [k for k in rest.values() if k is not first]
                 rec.note('concatenation-with-repeat' if repeat else 'concatenation')
                 if (sorted(set(str(k.fingerprint) for k in keys)) if repeat else sorted(str(k.fingerprint) for k in keys)) != sorted(m.fpr for m in models):
